@@ -208,6 +208,13 @@ def ode_part(cell):
     res = c01.ladder({'wind': spec, 'R': 300.0})
     for v in res.get('v', []):
         v['msg'] = 'two-segment list vs point-mass reference: ' + v['msg']
+    # the until-distances are DOWN-RANGE (horizontal) distances - also on a sight line inclined by 40 deg, where slant and horizontal differ by 30 %
+    if any(d != 'Z' for d, u in cell) and any(u for d, u in cell):
+        res2 = c01.ladder({'wind': spec, 'R': 300.0, 'look': 40.0})
+        for v in res2.get('v', []):
+            v['msg'] = 'two-segment list on a 40-deg sight line vs point-mass reference: ' + v['msg']
+        res['v'] = list(res.get('v', [])) + list(res2.get('v', []))
+        res['n'] = res.get('n', 1) + res2.get('n', 1)
     res['states'] = res['transitions'] = res['traces'] = res.get('n', 1)
     if res.get('nt') is not None:
         res['nt'] = cell
